@@ -176,7 +176,7 @@ pub fn compare(c: &LzmaCase, e: &Expect, o: &Obs, check_consumed: bool) -> Vec<(
             }
         }
         Exp::Any => {
-            if o.verdict == Verdict::Ok && o.out.len() != e.out.len() && e.class == "size-reached-coder-not-at-rest" {
+            if o.verdict == Verdict::Ok && o.out.len() != e.out.len() && (e.class == "size-reached-coder-not-at-rest" || e.class == "truncated-behind-last-bit") {
                 // whether such an input is accepted is open, but a size IS in effect: "success implies exactly that
                 // many bytes were produced"
                 v.push(("output-length".into(), format!("accepted with {} bytes although a size of {} bytes is in effect", o.out.len(), e.out.len())));
@@ -278,7 +278,7 @@ pub fn check_case(c: &LzmaCase, prop: &str, rep: &mut Report) -> bool {
     if c.api == "raw" && c.dict < 4096 {
         use lzma_rs::decompress::raw::{LzmaDecoder, LzmaParams, LzmaProperties};
         let refused = crate::io::catch(|| LzmaDecoder::new(LzmaParams::new(LzmaProperties { lc: c.props.lc, lp: c.props.lp, pb: c.props.pb }, c.dict, c.raw_size), None).is_err());
-        if matches!(refused, crate::io::Caught::Done(true)) && c.dict > 0 {
+        if matches!(refused, crate::io::Caught::Done(true) | crate::io::Caught::Panic(_)) && c.dict > 0 {
             rep.count("raw_small_dict_refused_by_constructor");
             skip_rest = true;
         } else if compare(c, &e, &o, false).iter().any(|(k, _)| k != "panic") {
@@ -1042,7 +1042,7 @@ pub fn replay_entry_points(path: &str, prop: &str, seed: u64, rounds: usize, rep
             let agrees = match tv {
                 "okT" => (e.v == Exp::Ok || e.class == "size-reached-coder-not-at-rest") && e.out.len() as u64 == t,
                 "ok0" => (e.v == Exp::Ok || e.class == "size-reached-coder-not-at-rest") && e.out.is_empty(),
-                "err" => e.v == Exp::Err,
+                "err" => e.v == Exp::Err || e.class == "truncated-behind-last-bit",
                 _ => true,
             };
             if !agrees {
